@@ -51,6 +51,7 @@ let limiter_core o f : string =
   let tainted = ref [] in
   let nband = ref 0 in
   let len_amb = ref false in
+  let real_clock = (fld_opt f "clock" = Some "real") in
   let dec = Buffer.create 64 in
   let hist = ref [] in
   List.iter (fun op ->
@@ -74,11 +75,17 @@ let limiter_core o f : string =
       (* the collector's "has refilled completely" test (TokensAt(now) >= burst) within the band of an idle entry:
          float64 may decide either way; the two outcomes differ by < band tokens (covered by the decision band),
          only the number of entries may differ *)
-      List.iter (fun (_, b) ->
+      List.iter (fun (k, b) ->
         if lim_expired (z_of_int !t) b then begin
           let last = min (int_of_z b.b_last) !t in
           let x = int_of_z b.b_tok + int_of_z o.o_limit * (!t - last) in
-          if abs (x - int_of_z o.o_burst * 1000000000) < band then len_amb := true
+          let full = int_of_z o.o_burst * 1000000000 in
+          if abs (x - full) < band then len_amb := true;
+          (* clock=real: the real gc() reads the clock a little after the virtual time of the g op (the generator keeps
+             lastSeen 2 s clear of its threshold for the same reason): an idle entry that becomes full within 2 s may
+             be collected by the implementation and kept by the model: only the number of entries can differ (the
+             collector is unobservable in the decisions, C15_gc_unobservable) *)
+          if real_clock && x < full && x + int_of_z o.o_limit * 2000000000 >= full then len_amb := true
         end) !tbl;
       (* a key whose bucket state is ambiguous (an earlier decision inside the band): the collector's "has refilled
          completely" test may come out differently on the two sides, unless the entry has been idle for so long that
